@@ -96,10 +96,31 @@ def _direction(prob):
     return 'max' if c == 'maximize' else 'min'
 
 
+def _documented(prob):
+    """What the function object documents about itself; evaluate() must leave it alone."""
+    import copy
+    return copy.deepcopy({'optimum': getattr(prob, 'global_optimum', None), 'coords': getattr(prob, 'global_optimum_coords', None),
+                          'bounds': [list(p['bounds']) for p in prob.parameters], 'dimension': getattr(prob, 'dimension', None)})
+
+
+def _same_documented(a, b):
+    def eq(x, y):
+        if isinstance(x, (list, tuple)) or isinstance(y, (list, tuple)):
+            try:
+                return len(x) == len(y) and all(eq(u, w) for u, w in zip(x, y))
+            except TypeError:
+                return False
+        if isinstance(x, dict):
+            return isinstance(y, dict) and x.keys() == y.keys() and all(eq(x[k], y[k]) for k in x)
+        return bool(x == y)
+    return eq(a, b)
+
+
 def totality_and_bound(args):
     name, modk, kwargs, prove = args['name'], args['mod'], args['kwargs'], args['prove']
     from artap.individual import Individual
     prob = _make(name, modk, kwargs)
+    doc0 = _documented(prob)
     n = len(prob.parameters)
     opt = getattr(prob, 'global_optimum', None)
     direction = _direction(prob)
@@ -114,6 +135,14 @@ def totality_and_bound(args):
         v = r[0]
         ctx.output('value', v)
         ctx.check('cost-is-a-real-number', isinstance(v, complex) or v is None or isinstance(v, (list, tuple)))
+        # multi-step: the function object is used for every evaluation of a run -- evaluate() must not change what the
+        # object documents (optimum, coordinates, box) and, for the deterministic functions, a second call on the same
+        # point must return the same cost
+        ctx.check('evaluate-leaves-the-documented-optimum-and-box-untouched', not _same_documented(doc0, _documented(prob)))
+        if 'XinSheYang' not in name and not (isinstance(v, complex) or v is None or isinstance(v, (list, tuple))):
+            r2 = prob.evaluate(Individual(list(x)))
+            if isinstance(r2, (list, tuple)) and len(r2) == 1:
+                ctx.check('second-call-on-the-same-point-returns-the-same-cost', ops.differs(r2[0], v, 1e-9))
         if opt is None or isinstance(opt, (list, tuple)):
             return
         if prove == 'schwefel' and ctx.symbolic:
@@ -181,6 +210,7 @@ def optimum_value(args):
     name, modk, kwargs = args['name'], args['mod'], args['kwargs']
     from artap.individual import Individual
     prob = _make(name, modk, kwargs)
+    doc0 = _documented(prob)
 
     def body(ctx):
         opt = getattr(prob, 'global_optimum', None)
@@ -197,6 +227,7 @@ def optimum_value(args):
             ctx.check('documented-optimum-value(%s)' % kind, Or(v - opt > TOL, opt - v > TOL))
             if not isinstance(v, core.SNum):
                 ctx.check('finite(%s)' % kind, not math.isfinite(float(v)))
+        ctx.check('evaluate-leaves-the-documented-optimum-and-box-untouched', not _same_documented(doc0, _documented(prob)))
     return body
 
 
